@@ -24,7 +24,7 @@ from vcdd.oracle.ircmp import canon
 KINDS = ("function_parse_partial", "emit_class", "emit_function", "emit_argparse", "emit_sqlalchemy", "emit_docstring",
          "json_schema", "infer_imports", "merge_assignment_lists", "gen_file", "gen_file_imports", "doctrans",
          "openapi", "class_parse", "sync_properties", "optimise_imports", "emit_sqlalchemy_custom", "docstring_parse",
-         "function_parse_footer", "gen_phase1")
+         "function_parse_footer", "gen_phase1", "json_schema_set_default")
 
 # a small shared pool of type names the converters have no table entry for: a later case meets names an earlier
 # (or an interleaved, unrelated) conversion has already seen - what a module-level table that learns would change
@@ -112,6 +112,21 @@ def run_case(kind, r, tmp):
             return canon(cdd.docstring.parse.docstring(text))
         src = 'def foo(%s):\n    """%s"""\n    return None\n' % (", ".join(p[0] for p in params), text)
         return hops.emit(cdd.function.parse.function(ast.parse(src).body[0]), "class")[1]
+    if kind == "json_schema_set_default":
+        # set-valued defaults (members that differ only in letter case, or sort next to each other) through the JSON
+        # encoder that renders a set as a list
+        import cdd.function.parse
+        import cdd.json_schema.emit
+        from cdd.shared.pure_utils import SetEncoder
+
+        pools = (("mean", "Mean", "MEAN", "sum", "Sum", "none"), ("adam", "Adam", "sgd", "SGD", "Sgd"), ("a", "B", "b", "A", "c"))
+        members = r.sample(r.choice(pools), r.randint(3, 5))
+        ints = r.sample(range(10), r.randint(2, 4))
+        src = ("def train(reduction: set = {%s}, ranks: set = {%s}, tol: float = 0.5):\n    \"\"\"\n    Train\n\n"
+               "    :param reduction: how to reduce\n\n    :param ranks: the ranks\n\n    :param tol: tolerance\n    \"\"\"\n"
+               "    pass\n" % (", ".join(repr(m) for m in members), ", ".join(map(str, ints))))
+        ir = cdd.function.parse.function(ast.parse(src).body[0])
+        return json.dumps(cdd.json_schema.emit.json_schema(ir), cls=SetEncoder)
     if kind == "gen_phase1":
         # second phase of `gen --emit sqlalchemy`: one import per foreign table referenced by the model file
         import cdd.sqlalchemy.utils.emit_utils as sa_eu
